@@ -182,9 +182,8 @@ func VerifyOpt(f *File, allowLoop bool) (*VerifyResult, []string) {
 		if s.d > res.MaxDepth {
 			res.MaxDepth = s.d
 		}
-		if s.d > StackSize {
-			bad("%s: static depth %d exceeds the operand stack", in, s.d)
-		}
+		// a depth beyond StackSize is not a malformation: the VM refuses the
+		// push at run time (implementation limit, property C06)
 		next := off + in.Len
 		switch in.Op {
 		case RET:
